@@ -1,6 +1,7 @@
 package ir
 
 import (
+	"go/token"
 	"go/types"
 	"sort"
 	"unicode"
@@ -289,4 +290,112 @@ func sitesNeedingContext(h *ssa.Function) []ssa.CallInstruction {
 		}
 	}
 	return nil
+}
+
+
+// helperCallOf recognises `H(...)` or `H(...)#i` where H is a transparent helper.
+func helperCallOf(v ssa.Value) (*ssa.Call, int) {
+	switch x := v.(type) {
+	case *ssa.Call:
+		if helperCallee(x) != nil {
+			return x, 0
+		}
+	case *ssa.Extract:
+		if c, ok := x.Tuple.(*ssa.Call); ok && helperCallee(c) != nil {
+			return c, x.Index
+		}
+	}
+	return nil, 0
+}
+
+// nilReturnsOf lists the returns of h whose result idx may be nil.
+func nilReturnsOf(h *ssa.Function, idx int) []*ssa.Return {
+	var out []*ssa.Return
+	for _, rt := range Returns(h) {
+		if idx >= len(rt.Results) {
+			continue
+		}
+		v := rt.Results[idx]
+		if c, ok := v.(*ssa.Const); ok {
+			if c.Value == nil {
+				out = append(out, rt.Instr)
+			}
+			continue
+		}
+		if HasFact(factsAtBlockOwn(rt.Instr.Block()), "!eq("+Render(v)+",nil)") {
+			continue
+		}
+		if _, isMk := v.(*ssa.MakeInterface); isMk {
+			continue // a concrete value converted to an interface is never nil
+		}
+		if c, isCall := v.(*ssa.Call); isCall {
+			switch calleeName(&c.Call) {
+			case "fmt.Errorf", "errors.New", "errors.Errorf", "errors.Wrap", "errors.Wrapf":
+				continue // constructors of non-nil errors
+			}
+		}
+		if u, isLoad := v.(*ssa.UnOp); isLoad && u.Op == token.MUL {
+			if _, isGlobal := u.X.(*ssa.Global); isGlobal {
+				continue // package-level error values (ErrXxx) are non-nil
+			}
+		}
+		out = append(out, rt.Instr)
+	}
+	return out
+}
+
+// withCallArgs runs f with the helper's parameters rendered as the arguments of call.
+func withCallArgs(call *ssa.Call, f func()) {
+	h := call.Call.StaticCallee()
+	var set []*ssa.Parameter
+	if h != nil {
+		for i, q := range h.Params {
+			if i < len(call.Call.Args) {
+				if _, busy := paramSubst[q]; !busy {
+					paramSubst[q] = call.Call.Args[i]
+					set = append(set, q)
+				}
+			}
+		}
+	}
+	defer func() {
+		for _, q := range set {
+			delete(paramSubst, q)
+		}
+	}()
+	f()
+}
+
+// nilResultFacts: the facts that hold whenever result idx of the helper call is nil
+// (intersection over the returns that may produce nil).
+func nilResultFacts(call *ssa.Call, idx int) []string {
+	h := call.Call.StaticCallee()
+	rets := nilReturnsOf(h, idx)
+	if len(rets) == 0 {
+		return nil
+	}
+	var common map[string]bool
+	withCallArgs(call, func() {
+		for _, rt := range rets {
+			m := map[string]bool{}
+			for _, f := range factsAtBlockOwn(rt.Block()) {
+				m[f.Atom] = true
+			}
+			if common == nil {
+				common = m
+				continue
+			}
+			for a := range common {
+				if !m[a] {
+					delete(common, a)
+				}
+			}
+		}
+	})
+	var out []string
+	for a := range common {
+		out = append(out, a)
+	}
+	sort.Strings(out)
+	return out
 }
